@@ -65,6 +65,11 @@ class _Continue(Exception):
     pass
 
 
+class PathEnd(Exception):
+    """The path ends here without reaching the function's exit: one arbitrary iteration of a loop summarised by its
+    invariant has been checked (the obligations collected so far are still discharged by the driver)."""
+
+
 class VSuper(V):
     def __init__(self, cls, self_obj):
         self.cls = cls
@@ -375,7 +380,10 @@ class Interp:
 
     # ------------------------------------------------------------------ exceptions
     def raise_(self, cls, msg=""):
-        raise PyRaise(VExc(cls, (mk(msg),)))
+        e = VExc(cls, (mk(msg),))
+        e.where = "%s:%s" % getattr(self, "cur_where", ("?", 0))
+        e.msg = msg
+        raise PyRaise(e)
 
     def exc_matches(self, exc: VExc, handler_type: V) -> bool:
         if isinstance(handler_type, VTuple):
@@ -494,6 +502,10 @@ class Interp:
             return v.conc != 0.0
         if isinstance(v, VLib) and v.kind in ("Logger", "Match", "UUID", "Path", "IntelHex", "Struct", "HashAlg", "PrivateKey", "PublicKey"):
             return True
+        if isinstance(v, VOpaque):
+            from . import plain
+            if isinstance(v, plain.Lazy):
+                return plain.truth(self, v)
         raise OutOfSubset(f"truthiness of {v!r}")
 
     def test(self, v: V) -> bool:
@@ -505,6 +517,7 @@ class Interp:
             self.exec_stmt(st, env)
 
     def exec_stmt(self, st, env):
+        self.cur_where = (env.module.relpath if env.module is not None else "?", getattr(st, "lineno", 0))
         m = getattr(self, "st_" + type(st).__name__, None)
         if m is None:
             raise OutOfSubset(f"statement {type(st).__name__} at line {st.lineno}")
@@ -687,7 +700,16 @@ class Interp:
         raise _Continue()
 
     def st_For(self, st, env):
-        items = self.iterate(self.eval(st.iter, env))
+        src = self.eval(st.iter, env)
+        from . import plain
+        if isinstance(src, plain.VPlain):
+            src = plain.resolve(self, src)
+        if isinstance(src, (plain.VPList, plain.VPMap, plain.VPIter)):
+            return self.symbolic_for(st, env, src)
+        spec = self.loop_spec()
+        if spec is not None and spec.get("__all_for__"):
+            return self.symbolic_for(st, env, VList(self.iterate(src)))
+        items = self.iterate(src)
         broke = False
         for it in items:
             self.assign(st.target, it, env)
@@ -702,6 +724,9 @@ class Interp:
             self.exec_block(st.orelse, env)
 
     def st_While(self, st, env):
+        spec = self.loop_spec()
+        if spec is not None and spec.get("__while__"):
+            return self.symbolic_while(st, env)
         n = 0
         broke = False
         while self.test(self.eval(st.test, env)):
@@ -717,6 +742,177 @@ class Interp:
                 continue
         if not broke:
             self.exec_block(st.orelse, env)
+
+    # ------------------------------------------------------------------ loops over collections of symbolic size (invariant rule)
+    def loop_spec(self):
+        """Declared loop-carried shapes of the function currently executing (sidecar: Contract.loops / LOOP_SPECS)."""
+        from . import contract as contract_mod
+        if not self.active_calls:
+            return None
+        return contract_mod.LOOP_SPECS.get(self.active_calls[-1])
+
+    def _loop_effects(self, body, target=None):
+        """(assigned names, mutated names) of a loop body, syntactically (over-approximation)."""
+        assigned, mutated = set(), set()
+        MUT = {"append", "extend", "insert", "pop", "remove", "update", "setdefault", "clear", "sort", "reverse", "popitem", "add", "discard"}
+
+        def root(n):
+            while isinstance(n, (ast.Attribute, ast.Subscript)):
+                n = n.value
+            return n.id if isinstance(n, ast.Name) else None
+        for st in body:
+            for n in ast.walk(st):
+                if isinstance(n, ast.Name) and isinstance(n.ctx, (ast.Store, ast.Del)):
+                    assigned.add(n.id)
+                elif isinstance(n, (ast.Attribute, ast.Subscript)) and isinstance(n.ctx, (ast.Store, ast.Del)):
+                    r = root(n)
+                    if r is not None:
+                        mutated.add(r)
+                elif isinstance(n, ast.Call) and isinstance(n.func, ast.Attribute) and n.func.attr in MUT:
+                    r = root(n.func.value)
+                    if r is not None:
+                        mutated.add(r)
+                elif isinstance(n, ast.ExceptHandler) and n.name:
+                    assigned.add(n.name)
+                elif isinstance(n, (ast.Import, ast.ImportFrom)):
+                    for a in n.names:
+                        assigned.add(a.asname or a.name.split(".")[0])
+        if target is not None:
+            for n in ast.walk(target):
+                if isinstance(n, ast.Name):
+                    assigned.discard(n.id)
+                    mutated.discard(n.id)
+        return assigned, mutated
+
+    def _loop_enter(self, st, env, target=None):
+        """Check the invariant on entry and havoc the loop-carried state. Returns the declared (name, shape) list."""
+        from . import shapes
+        spec = self.loop_spec()
+        if spec is None:
+            raise OutOfSubset(f"loop over a collection of symbolic size at line {st.lineno} without a declared invariant")
+        assigned, mutated = self._loop_effects(st.body, target)
+        declared = []
+        for name in sorted(assigned | mutated):
+            cur = env.lookup(name)
+            if name in spec:
+                shape = spec[name]
+                if callable(shape) and not isinstance(shape, type):
+                    shape = shape(self, env)
+                if cur is None or isinstance(cur, VPoison):
+                    raise OutOfSubset(f"loop-carried variable {name} is not initialised before the loop at line {st.lineno}")
+                ok = shapes.conforms(self, cur, shape)
+                shapes.note_obligation(self, f"invariant-init:{name}", ok, f"{cur!r} is not of shape {shape!r}")
+                declared.append((name, shape))
+            elif name in mutated and name not in assigned:
+                if cur is not None and not isinstance(cur, (VClass, VBuiltin)):
+                    raise OutOfSubset(f"loop at line {st.lineno} mutates {name} but no invariant shape is declared for it")
+        for name, shape in declared:
+            env.set(name, shapes.make(self, shape, name))
+        for name in sorted(assigned):
+            if name not in spec:
+                env.set(name, VPoison(f"value of {name} from an earlier loop iteration (not declared loop-carried)"))
+        return declared
+
+    def _loop_step_done(self, declared, env):
+        from . import shapes
+        for name, shape in declared:
+            cur = env.lookup(name)
+            ok = cur is not None and not isinstance(cur, VPoison) and shapes.conforms(self, cur, shape)
+            shapes.note_obligation(self, f"invariant-step:{name}", ok, f"{cur!r} is not of shape {shape!r}")
+        raise PathEnd()
+
+    def arbitrary_element(self, src, hint="elem"):
+        """An arbitrary element of a non-empty symbolic collection (assumes non-emptiness on this path)."""
+        from . import plain
+        if isinstance(src, VList):
+            if not src.items:
+                raise Infeasible()
+            return src.items[self.choose(len(src.items), "which_iteration")]
+        if isinstance(src, plain.VPList):
+            self.assume(src.n.e > 0)
+            i = self.fresh_int(f"idx_{src.name}", 0)
+            self.assume(i.e < src.n.e)
+            return src.elem(self, i)
+        m = src.m if isinstance(src, plain.VPIter) else src
+        what = src.what if isinstance(src, plain.VPIter) else "keys"
+        self.assume(m.n.e > 0)
+        k = plain.resolve_key(self, m.key_fn(self, f"{m.name}@key"))
+        if what == "keys":
+            return k
+        v = m.value_at(self, k)
+        return v if what == "values" else VTuple([k, v])
+
+    def symbolic_for(self, st, env, src):
+        declared = self._loop_enter(st, env, st.target)
+        if self.choose(2, "loop_iter_or_exit") == 0:
+            elem = self.arbitrary_element(src)
+            self.assign(st.target, elem, env)
+            try:
+                self.exec_block(st.body, env)
+            except _Break:
+                return  # leaves the loop with the state of this (arbitrary) iteration; `else` is skipped
+            except _Continue:
+                pass
+            self._loop_step_done(declared, env)
+        self.exec_block(st.orelse, env)
+
+    def symbolic_while(self, st, env):
+        declared = self._loop_enter(st, env)
+        if self.test(self.eval(st.test, env)):
+            try:
+                self.exec_block(st.body, env)
+            except _Break:
+                return
+            except _Continue:
+                pass
+            self._loop_step_done(declared, env)
+        self.exec_block(st.orelse, env)
+
+    def symbolic_comprehension(self, n, env, kind):
+        """[elt for x in <symbolic collection> if c] / {k: v for ...}: the element expression is evaluated once for an
+        arbitrary element (every exception it can raise is explored); the result is a collection of symbolic size whose
+        element shape must not depend on the path taken (shapes.shape_like)."""
+        from . import plain, shapes
+        if len(n.generators) != 1:
+            return None
+        g = n.generators[0]
+        src = self.eval(g.iter, env)
+        if isinstance(src, plain.VPlain):
+            src = plain.resolve(self, src)
+        if not isinstance(src, (plain.VPList, plain.VPMap, plain.VPIter)):
+            self._comp_src = getattr(self, "_comp_src", {})
+            self._comp_src[id(n.generators)] = src  # evaluated once: the unrolling code below picks it up
+            return None
+        size = src.n if isinstance(src, plain.VPList) else (src.m.n if isinstance(src, plain.VPIter) else src.n)
+        if self.branch(size.e == 0):
+            return VList([]) if kind == "list" else VDict()
+        e2 = Env(env.module, env)
+        self.assign(g.target, self.arbitrary_element(src), e2)
+        kept = True
+        for c in g.ifs:
+            kept = self.test(self.eval(c, e2)) and kept
+        if kind == "list":
+            if not kept:
+                # this arbitrary element is filtered out: nothing more is learnt on this path
+                raise PathEnd()
+            r = self.eval(n.elt, e2)
+            sh = shapes.shape_like(self, r)
+            if sh is None:
+                raise OutOfSubset(f"comprehension over a symbolic collection at line {n.lineno}: element {r!r} has no path-independent shape")
+            m = self.fresh_int("len_comp", 0)
+            self.assume(m.e <= size.e)
+            if not g.ifs:
+                self.assume(m.e == size.e)
+            return plain.VPList(self, self.fresh_name("comp"), lambda it_, hint: shapes.make(it_, sh, hint), shape=shapes.AbsListT(sh), n=m)
+        if not kept:
+            raise PathEnd()
+        k = self.eval(n.key, e2)
+        v = self.eval(n.value, e2)
+        ks, vs = shapes.shape_like(self, k), shapes.shape_like(self, v)
+        if ks is None or vs is None:
+            raise OutOfSubset(f"dict comprehension over a symbolic collection at line {n.lineno}: no path-independent shape for {k!r}: {v!r}")
+        sh = shapes.AbsDictT(lambda it_, key: vs, key=ks, label=f"comp@{n.lineno}")
+        return shapes.make(self, sh, "dcomp")
 
     def st_Try(self, st, env):
         try:
@@ -849,6 +1045,20 @@ class Interp:
         for k, v in zip(n.keys, n.values):
             if k is None:
                 src = self.eval(v, env)
+                from . import plain
+                if isinstance(src, plain.VPlain):
+                    src = plain.resolve(self, src)
+                if isinstance(src, plain.VPMap):
+                    # {**a, **b, ...} with a mapping of symbolic size: the result is a mapping of symbolic size of the same shape
+                    if d.entries:
+                        raise OutOfSubset("dict display mixing concrete entries and ** of a symbolic mapping")
+                    prev = getattr(d, "_sym_merge", None)
+                    if prev is not None and not (prev.shape is src.shape or (prev.shape is not None and src.shape is not None and prev.shape.label == src.shape.label)):
+                        raise OutOfSubset("** merge of symbolic mappings of different shapes")
+                    d._sym_merge = src
+                    continue
+                if getattr(d, "_sym_merge", None) is not None:
+                    raise OutOfSubset("dict display mixing ** of a symbolic mapping with other entries")
                 if not isinstance(src, VDict):
                     raise OutOfSubset("** of non-dict")
                 for kk in self.dict_keys(src):
@@ -856,9 +1066,18 @@ class Interp:
                 continue
             kv = self.eval(k, env)
             ck = conc_key(kv)
+            from . import plain as _plain
+            if isinstance(kv, _plain.Lazy) and len(n.keys) == 1:
+                return _plain.singleton_map(self, kv, self.eval(v, env))
             if ck is None and not isinstance(kv, VNone):
                 raise OutOfSubset(f"dict display with symbolic key {kv!r}")
+            if getattr(d, "_sym_merge", None) is not None:
+                raise OutOfSubset("dict display mixing ** of a symbolic mapping with other entries")
             d.entries[ck] = DEntry(ck, self.eval(v, env))
+        if getattr(d, "_sym_merge", None) is not None:
+            from . import plain
+            m = d._sym_merge
+            return plain.VPMap(self, m.name + "@merged", m.key_fn, m.val_fn, frozen=False, shape=m.shape)
         return d
 
     def ex_JoinedStr(self, n, env):
@@ -1002,7 +1221,8 @@ class Interp:
                 body(e)
                 return
             g = generators[i]
-            for it in self.iterate(self.eval(g.iter, e)):
+            pre = getattr(self, "_comp_src", {}).pop(id(generators), None) if i == 0 else None
+            for it in self.iterate(pre if pre is not None else self.eval(g.iter, e)):
                 e2 = Env(e.module, e)
                 self.assign(g.target, it, e2)
                 if all(self.test(self.eval(c, e2)) for c in g.ifs):
@@ -1013,6 +1233,9 @@ class Interp:
         sym = self.stubs.symbolic_comprehension(self, n, env)
         if sym is not None:
             return sym
+        sym = self.symbolic_comprehension(n, env, "list")
+        if sym is not None:
+            return sym
         out = []
         self._comp_iter(n.generators, env, lambda e: out.append(self.eval(n.elt, e)))
         return VList(out)
@@ -1021,6 +1244,9 @@ class Interp:
         return self.ex_ListComp(n, env)
 
     def ex_DictComp(self, n, env):
+        sym = self.symbolic_comprehension(n, env, "dict")
+        if sym is not None:
+            return sym
         d = VDict()
 
         def body(e):
@@ -1121,6 +1347,10 @@ class Interp:
                 return VBuiltin("dict.__setitem__", self_obj=obj.self_obj.attrs["__dict_base__"])
             raise OutOfSubset(f"super().{name} not found")
         if isinstance(obj, VObj):
+            if getattr(obj, "abstract", False) and not getattr(obj, "materialised", False):
+                from . import shapes
+                if name == shapes.payload_attr(obj.cls) or name == "__dict__":
+                    shapes.materialise_payload(self, obj)
             if name in obj.attrs:
                 return obj.attrs[name]
             a, owner = obj.cls.lookup(name)
@@ -1302,12 +1532,20 @@ class Interp:
                 v.global_ = True
         return v
 
+    def _in_scope(self, c):
+        """Contracts with a `scope` are used modularly only while a function of one of those properties is verified
+        (elsewhere the body is inlined as before)."""
+        if c.scope is None:
+            return True
+        v = self.contracts.get(self.verifying)
+        return v is not None and bool(set(v.props) & set(c.scope))
+
     def contract_key(self, fi: FuncInfo):
         return (fi.module.relpath, fi.qualname)
 
     def call_function(self, fi: FuncInfo, args, kwargs, looked_up_on=None, force_inline=False) -> V:
         key = self.contract_key(fi)
-        if not force_inline and key in self.contracts and (key != self.verifying or key in self.active_calls) and not (self.contracts[key].callers_inline and key not in self.active_calls):
+        if not force_inline and key in self.contracts and (key != self.verifying or key in self.active_calls) and not (self.contracts[key].callers_inline and key not in self.active_calls) and self._in_scope(self.contracts[key]):
             from . import modular
             c = self.contracts[key]
             if c.apply_fn is not None:
